@@ -41,8 +41,10 @@ struct TestKick : public KickMap {
     void set(const std::vector<meshaxis_t>& o) { for (size_t i = 0; i < o.size() && i < _offset.size(); i++) _offset[i] = o[i]; updateSM(); }
 };
 
-static std::shared_ptr<PhaseSpace> mkps(int N, int nb) {
+static std::shared_ptr<PhaseSpace> mkps(int N, int nb, bool shifted = false) {
     std::vector<integral_t> filling(nb, 1.0f / nb);
+    if (shifted)   // zero bins of the two axes differ
+        return std::make_shared<PhaseSpace>(-5, 7, 1e-3, -6.5, 5.5, 1e3, nullptr, 1e-9, 1e-3, filling, 1.0, nullptr);
     return std::make_shared<PhaseSpace>(-6, 6, 1e-3, -6, 6, 1e3, nullptr, 1e-9, 1e-3, filling, 1.0, nullptr);
 }
 
@@ -141,7 +143,7 @@ int main(int argc, char** argv) {
         int N = atoi(argv[2]), nb = atoi(argv[3]), it = atoi(argv[4]), lin = atoi(argv[5]);
         unsigned seed = atoi(argv[6]);
         PhaseSpace::resetSize(N, nb);
-        auto a = mkps(N, nb), b = mkps(N, nb);
+        auto a = mkps(N, nb, true), b = mkps(N, nb, true);
         std::mt19937 g(seed);
         filldata(*a, N, nb, g, N / 4);
         std::unique_ptr<RFKickMap> rf;
@@ -165,32 +167,51 @@ int main(int argc, char** argv) {
         return bad ? 1 : 0;
     }
     if (mode == "fp" && argc == 8) {
-        // Fokker-Planck step: same stencil for every bunch; charge of an interior blob conserved
+        // Fokker-Planck step on a grid shifted differently in q and p: (a) charge of data that avoids the rows next to
+        // the zero-energy bin is conserved exactly, for every bunch; (b) mean and second moment of a blob follow the
+        // per-step law mean' = (1-A e1) mean, m2' = (1-2A e1) m2 + 2B e1 - c A e1 dp^2 (0<=c<=1)
         int N = atoi(argv[2]), nb = atoi(argv[3]), fpt = atoi(argv[4]), dt = atoi(argv[5]);
         double e1 = atof(argv[6]);
         unsigned seed = atoi(argv[7]);
         PhaseSpace::resetSize(N, nb);
-        auto a = mkps(N, nb), b = mkps(N, nb);
+        std::vector<integral_t> filling(nb, 1.0f / nb);
+        double qmin = -6, qmax = 6, pmin = -4, pmax = 8;
+        auto a = std::make_shared<PhaseSpace>(qmin, qmax, 1e-3, pmin, pmax, 1e3, nullptr, 1e-9, 1e-3, filling, 1.0, nullptr);
+        auto b = std::make_shared<PhaseSpace>(qmin, qmax, 1e-3, pmin, pmax, 1e3, nullptr, 1e-9, 1e-3, filling, 1.0, nullptr);
         std::mt19937 g(seed);
-        filldata(*a, N, nb, g, N / 4);
+        std::uniform_real_distribution<float> u(0.1f, 1.0f);
+        double dp = (pmax - pmin) / (N - 1);
+        int tz = int(a->getAxis(1)->zerobin());
+        meshdata_t* in = a->getData();
+        for (int n = 0; n < nb; n++) for (int x = 0; x < N; x++) for (int y = 0; y < N; y++) {
+            bool ok = y >= 5 && y < N - 5 && (y < tz - 5 || y > tz + 5);
+            in[(size_t(n) * N + x) * N + y] = ok ? u(g) * (1 + n) : 0.0f;
+        }
         FokkerPlanckMap fp(a, b, N, N, static_cast<FokkerPlanckMap::FPType>(fpt), FokkerPlanckMap::FPTracking::none, e1,
                            static_cast<FokkerPlanckMap::DerivationType>(dt), nullptr);
         fp.apply();
         int bad = 0;
-        const meshdata_t* in = a->getData();
         const meshdata_t* out = b->getData();
-        double d = a->getDelta(1);
         for (int n = 0; n < nb; n++) {
             double s0 = 0, s1 = 0;
             for (int x = 0; x < N; x++) for (int y = 0; y < N; y++) { s0 += in[(size_t(n) * N + x) * N + y]; s1 += out[(size_t(n) * N + x) * N + y]; }
-            double tol = (dt == 4 ? e1 : 0) * s0 + 1e-4 * s0;
-            if (std::fabs(s1 - s0) > tol) { printf("MISMATCH fp charge bunch=%d before=%.9g after=%.9g\n", n, s0, s1); bad++; }
+            if (std::fabs(s1 - s0) > 3e-6 * s0) { printf("MISMATCH fp charge bunch=%d before=%.9g after=%.9g rel=%.3g\n", n, s0, s1, (s1 - s0) / s0); bad++; }
         }
-        // bunch independence: scaled copies transform identically
-        for (int n = 1; n < nb; n++) for (int x = 0; x < N; x++) for (int y = 0; y < N; y++) {
-            // same operator for every bunch: check linearity pattern through the table directly
+        // moment law on a single column of data: narrow blob at energy p0
+        double A = (fpt == 1 || fpt == 3) ? 1 : 0, B = (fpt == 2 || fpt == 3) ? 1 : 0;
+        for (double p0 : {-1.8, 4.0}) {
+            for (size_t i = 0; i < size_t(nb) * N * N; i++) in[i] = 0;
+            int x0 = N / 2;
+            for (int y = 0; y < N; y++) { double p = pmin + y * dp; double e_ = -0.5 * (p - p0) * (p - p0) / (p0 < 0 ? 0.09 : 0.25); in[(size_t(0) * N + x0) * N + y] = e_ > -30 ? float(std::exp(e_)) : 0.0f; }
+            fp.apply();
+            double m0 = 0, m1 = 0, m2 = 0, n0 = 0, n1 = 0, n2 = 0;
+            for (int y = 0; y < N; y++) { double p = pmin + y * dp, v = in[(size_t(0) * N + x0) * N + y], w = out[(size_t(0) * N + x0) * N + y];
+                m0 += v; m1 += v * p; m2 += v * p * p; n0 += w; n1 += w * p; n2 += w * p * p; }
+            double mean = m1 / m0, mean2 = n1 / n0, sec = m2 / m0, sec2 = n2 / n0;
+            double want1 = (1 - A * e1) * mean, want2hi = (1 - 2 * A * e1) * sec + 2 * B * e1, want2lo = want2hi - A * e1 * dp * dp;
+            if (std::fabs(mean2 - want1) > 0.05 * e1 * (std::fabs(mean) + 0.1) + 2e-6) { printf("MISMATCH fp mean blob@%g: real_code=%.9g oracle=%.9g\n", p0, mean2, want1); bad++; }
+            if (sec2 > want2hi + 0.05 * e1 + 2e-6 || sec2 < want2lo - 0.05 * e1 - 2e-6) { printf("MISMATCH fp second moment blob@%g: real_code=%.9g oracle in [%.9g, %.9g]\n", p0, sec2, want2lo, want2hi); bad++; }
         }
-        (void)d;
         printf("fp: %d mismatches\n", bad);
         return bad ? 1 : 0;
     }
